@@ -22,6 +22,20 @@ Fixpoint rnames_ok (l : list rentry) (seen : list N) : bool :=
   | r :: l' => negb (existsb (N.eqb (re_name r)) seen) && rnames_ok l' (re_name r :: seen)
   end.
 
+(* the outputs of the operation, whatever its binding style *)
+Definition style_ok (S : schema) (st : style) : bool :=
+  match st with
+  | SWrapped wt => fnames_ok (flat_elems S wt) [] && rnames_ok (returned_types S wt) []
+  | SBare ps => rnames_ok (map RE ps) []
+  | SRpc ps => rnames_ok (map RE ps) []
+  end.
+
+(* simple-content types extend a built-in whose Python type is str: the code
+   does not translate the text of an element of complex type at all
+   [proposed C02:simple-content-value-untyped] *)
+Definition simple_ok (simple : list (qn * N)) : bool :=
+  forallb (fun p => N.eqb (spec_tag (snd p)) tag_str) simple.
+
 (* no name of the interface is one the unmarshaller renames (class, def) *)
 Definition names_ok (names : list (str * N)) : bool :=
   forallb (fun p => match sfind (fst p) reserved_words with None => true | Some _ => false end) names.
@@ -108,17 +122,19 @@ Definition bodies_ok (x : inode) : bool :=
 
 (* ---- all the guards of the whole-reply theorem, on one harness case ---- *)
 Definition case_guard (c : case) : bool :=
-  match case_wt c, build (c_raw c) with
-  | Some wt, [root] =>
+  match case_style c, build (c_raw c) with
+  | Some st, [root] =>
       schema_ok (c_schema c) && names_ok (c_names c) && kinds_ok (c_kinds c) &&
-      globals_ok (c_schema c) (c_globals c) &&
-      fnames_ok (flat_elems (c_schema c) wt) [] &&
-      rnames_ok (returned_types (c_schema c) wt) [] &&
+      globals_ok (c_schema c) (c_globals c) && simple_ok (c_simple c) &&
+      style_ok (c_schema c) st &&
       match erase [] root with
       | Some x =>
           consistent root && no_xml_decl root && doc_ok [] (promote_node root) && bodies_ok x &&
-          match flags_reply (c_schema c) (c_names c) (c_uris c) (c_kinds c) wt x with [] => true | _ => false end &&
-          match ref_reply (c_schema c) (c_names c) (c_uris c) (c_kinds c) (c_wq c) wt x with
+          match flags_reply (c_schema c) (c_names c) (c_uris c) (c_kinds c) (c_simple c) st x with
+          | [] => true
+          | _ => false
+          end &&
+          match ref_reply (c_schema c) (c_names c) (c_uris c) (c_kinds c) (c_simple c) (c_wq c) st x with
           | Some _ => true
           | None => false
           end
@@ -131,11 +147,12 @@ Definition case_guard (c : case) : bool :=
    exactly the reference value of the document's (Coq-computed) infoset *)
 Definition theorem_instance (c : case) : bool :=
   negb (case_guard c) ||
-  match case_wt c, build (c_raw c) with
-  | Some wt, [root] =>
+  match case_style c, build (c_raw c) with
+  | Some st, [root] =>
       match erase [] root with
       | Some x =>
-          match ref_reply (c_schema c) (c_names c) (c_uris c) (c_kinds c) (c_wq c) wt x, model_reply c with
+          match ref_reply (c_schema c) (c_names c) (c_uris c) (c_kinds c) (c_simple c) (c_wq c) st x,
+                model_reply c with
           | Some v, DOk v' => pyval_eqb v v' && pyval_eqb v' v
           | _, _ => false
           end
